@@ -527,8 +527,23 @@ def api(g, cx, op, st):
                               if e.record_type in ("L", "C") else None)):
                 o = cx.call("edge." + what, fn)
         for what, fn in (("split_connected_components", lambda: [str(x) for x in g.split_connected_components()]),
-                         ("connected_components", g.connected_components), ("linear_paths", g.linear_paths)):
+                         ("connected_components", g.connected_components), ("linear_paths", g.linear_paths),
+                         ("linear_path(%r)" % a, lambda: g.linear_path(a)),
+                         ("stable_sequence_names", lambda: g.stable_sequence_names),
+                         ("SegmentEnd(%r)" % a, lambda: gfapy.SegmentEnd(a)),
+                         ("OrientedLine(%r)" % a, lambda: gfapy.OrientedLine(a)),
+                         ("merge_linear_path", lambda: g.merge_linear_path([a, v])),
+                         ("delete_low_coverage_segments", lambda: g.delete_low_coverage_segments(op["li"] % 7)),
+                         ("compute_copy_numbers", lambda: g.compute_copy_numbers(1 + op["li"] % 9)),
+                         ("remove_dead_ends", lambda: g.remove_dead_ends(op["li"] % 20)),
+                         ("merge_linear_paths", g.merge_linear_paths)):
             o = cx.call("gfa." + what, fn)
+        for s in segs[:2]:
+            for what, fn in (("dovetails_of_end(%r)" % a, lambda: (s.dovetails_of_end(a), s.gaps_of_end(a), s.neighbours_of_end(a))),
+                             ("coverage(unit_length)", lambda: s.coverage(unit_length=op["li"] % 12)),
+                             ("to_version_s(%r)" % a, lambda: s.to_version_s(a)),
+                             ("to_str", lambda: [x.to_str() for x in list(g.lines)[:6]])):
+                o = cx.call("line." + what, fn)
         if o is None:
             return
     elif c == "grp.edit":
